@@ -358,6 +358,18 @@ Proof.
   - apply Inv_push; [assumption | apply chunk_ok_short].
 Qed.
 
+Lemma Inv_consume fuel : forall order s, Inv s -> Inv (consume_loop fuel order s).
+Proof.
+  induction fuel as [|fuel IH]; intros order s H; cbn [consume_loop].
+  - destruct (forallb (is_ready (done s)) (abuf s));
+      (apply Inv_push; [try assumption; now apply (Inv_same s) | apply chunk_ok_other; discriminate]).
+  - destruct (forallb (is_ready (done s)) (abuf s)).
+    + apply Inv_push; [now apply (Inv_same s) | apply chunk_ok_other; discriminate].
+    + destruct (next_gate order (ngates s) (done s)) as [[k|] rest].
+      * apply IH, Inv_complete, Inv_push; [assumption | apply chunk_ok_other; discriminate].
+      * apply Inv_push; [assumption | apply chunk_ok_other; discriminate].
+Qed.
+
 Lemma Inv_cmd s c : Inv s -> Inv (cmd esc s c).
 Proof.
   intros H. unfold cmd.
@@ -370,11 +382,12 @@ Proof.
   - do 4 (try destruct p as [p|p|]); try exact H;
       try (now apply (Inv_same s));
       try (apply Inv_push; [assumption | apply chunk_ok_other; discriminate]).
-    all: try (now apply Inv_complete); try (now apply Inv_start_stream); try (now apply Inv_poll).
+    all: try (now apply Inv_complete); try (now apply Inv_start_stream); try (now apply Inv_poll);
+      try (now apply Inv_consume).
     (* 12 *)
-    assert (H0 : Inv (push_log s (Lst [Num 13%Z; Num 1%Z]))).
+    assert (H0 : Inv (push_log s (Lst [Num 13%Z; Num 1%Z; Lst (map sN (encode (as_Z (nth_s 2 c)) (as_bytes (nth_s 3 c))))]))).
     { apply Inv_push; [assumption | apply chunk_ok_other; discriminate]. }
-    destruct (next_id (client_step (push_log s (Lst [Num 13%Z; Num 1%Z])))) as [i s1] eqn:E.
+    destruct (next_id (client_step (push_log s (Lst [Num 13%Z; Num 1%Z; Lst (map sN (encode (as_Z (nth_s 2 c)) (as_bytes (nth_s 3 c))))])))) as [i s1] eqn:E.
     assert (H1 : Inv s1).
     { change s1 with (snd (i, s1)). rewrite <- E. now apply Inv_next_id, Inv_client_step. }
     destruct (as_Z (nth_s 1 c)) as [|q|q];
@@ -550,6 +563,15 @@ Proof.
   change (proj s) with (proj s'). now destruct (abuf s'), t.
 Qed.
 
+Lemma proj_consume fuel : forall order s, proj (consume_loop fuel order s) = proj s.
+Proof.
+  induction fuel as [|fuel IH]; intros order s; cbn [consume_loop].
+  - now destruct (forallb (is_ready (done s)) (abuf s)).
+  - destruct (forallb (is_ready (done s)) (abuf s)); [reflexivity|].
+    destruct (next_gate order (ngates s) (done s)) as [[k|] rest]; [|reflexivity].
+    rewrite IH, proj_complete. reflexivity.
+Qed.
+
 Lemma proj_cmd s c : proj (cmd esc s c) = fold_left c_step (event_of c) (proj s).
 Proof.
   unfold cmd, event_of.
@@ -559,11 +581,11 @@ Proof.
     unfold client_step, push_log, set_log, set_ids, upd; cbn.
     now destruct (negb (islands s1) || hyd s1).
   - do 4 (try destruct p as [p|p|]); try reflexivity.
-    all: try apply proj_complete; try apply proj_start_stream; try apply proj_poll.
+    all: try apply proj_complete; try apply proj_start_stream; try apply proj_poll; try apply proj_consume.
     cbn [fold_left c_step].
-    change (proj s) with (proj (push_log s (Lst [Num 13%Z; Num 1%Z]))).
+    change (proj s) with (proj (push_log s (Lst [Num 13%Z; Num 1%Z; Lst (map sN (encode (as_Z (nth_s 2 c)) (as_bytes (nth_s 3 c))))]))).
     rewrite <- proj_client_next.
-    destruct (next_id (client_step (push_log s (Lst [Num 13%Z; Num 1%Z])))) as [i s1]. cbn [snd].
+    destruct (next_id (client_step (push_log s (Lst [Num 13%Z; Num 1%Z; Lst (map sN (encode (as_Z (nth_s 2 c)) (as_bytes (nth_s 3 c))))])))) as [i s1]. cbn [snd].
     destruct (as_Z (nth_s 1 c)) as [|q|q];
       try (now destruct (hyd (set_ngates s1 (S (ngates s1))))).
     do 2 (try destruct q as [q|q|]);
@@ -862,3 +884,31 @@ Example binary_payload_nonvacuous :
   bytes_to_encoded_string [104; 195; 169; 0; 255] = [97; 77; 79; 112; 65; 80; 56]
   /\ bytes_from_encoded_str [97; 77; 79; 112; 65; 80; 56] = Some [104; 195; 169; 0; 255].
 Proof. split; vm_compute; reflexivity. Qed.
+
+(** * consume_buffers: whatever the completion order, every id comes out with the data that was
+    registered under it, in registration order *)
+Definition pair_entry (f : fut) : sexp := Lst [Lst (map sN (dec (f_id f))); Lst (map sN (f_data f))].
+
+Lemma abuf_complete s k : abuf (complete s k) = abuf s.
+Proof. unfold complete. destruct (Nat.ltb k (ngates s)); [|reflexivity]. now destruct (mem_nat k (done s)). Qed.
+
+Lemma consume_pairs fuel : forall order s l rest,
+  log (consume_loop fuel order s) = Lst [Num 14%Z; Lst l] :: rest ->
+  l = map pair_entry (abuf s).
+Proof.
+  induction fuel as [|fuel IH]; intros order s l rest H; cbn [consume_loop] in H.
+  - destruct (forallb (is_ready (done s)) (abuf s)); cbn in H; [|discriminate].
+    now injection H as <- _.
+  - destruct (forallb (is_ready (done s)) (abuf s)); [cbn in H; now injection H as <- _|].
+    destruct (next_gate order (ngates s) (done s)) as [[k|] rest']; [|cbn in H; discriminate].
+    apply IH in H. now rewrite abuf_complete in H.
+Qed.
+
+Example consume_pairs_nonvacuous :
+  exists l rest,
+    log (consume_loop 3 [1%nat; 0%nat]
+           (set_ngates (set_abuf (init false)
+              [{| f_id := 5; f_gate := Some 0%nat; f_data := [97] |};
+               {| f_id := 9; f_gate := Some 1%nat; f_data := [98] |}]) 2))
+    = Lst [Num 14%Z; Lst l] :: rest /\ length l = 2%nat.
+Proof. eexists. eexists. split; [vm_compute; reflexivity | reflexivity]. Qed.
